@@ -45,8 +45,11 @@ def parseBTx (s : String) : Option BTx :=
 
 def step (st : St) : List String → St × String
   | ["reset"] => ({}, "ok")
-  | ["u.reset", m] => match nat? m with
-      | some m => ({ st with udb := [], u := Utxo.empty m }, "ok")
+  | ["u.reset", m, mf] => match nat? m with
+      | some m =>
+        -- NewUTXOCache: with MemoryFirst the limit becomes memoryFirstReferenceSize
+        let m := if mf = "1" then 5000 else m
+        ({ st with udb := [], u := Utxo.empty m }, s!"ok max={m}")
       | none => (st, "bad-op")
   | ["u.put", id, outs] => match nat? id, nats? outs with
       | some id, some outs => ({ st with udb := setKey st.udb id outs }, "ok")
@@ -97,6 +100,7 @@ def step (st : St) : List String → St × String
         let (db, i) := Idx.disconnect st.idb st.i ids
         ({ st with idb := db, i := i }, s!"ok len={i.txns.length}")
       | none => (st, "bad-op")
+  | ["i.roundtrip"] => (st, s!"ok len={st.i.txns.length}")   -- Serialize / Deserialize keep the content
   | ["i.trim"] =>
       let i := st.i.trim []
       ({ st with i := i }, s!"ok len={i.txns.length}")
